@@ -11,7 +11,7 @@ from unified_planning.model.operators import OperatorKind as OK
 PROPERTY = "C12"
 TECHNIQUE = "property-based testing; truth-table equivalence against the reference evaluator + syntactic normal-form predicate"
 RULE = (
-    "Boolean expressions (depth <= 4, no quantifiers) over Boolean / object / numeric fluents and parameters with "
+    "Boolean expressions (depth <= 4, quantifiers over user types included) over Boolean / object / numeric fluents and parameters with "
     "Not/And/Or/Implies/Iff at any depth, equalities, comparisons fluent-vs-constant, fluent-vs-fluent and constant-only "
     "atoms (1 <= 2).  Interpretations: Boolean and object leaves exhaustively, numeric leaves over {c-1,c,c+1 | c constant} "
     "plus a grid (all combinations when <= 256, else 96 sampled).  Non-trivial = formula with >= 2 distinct atoms whose DNF "
@@ -20,7 +20,7 @@ RULE = (
 )
 SHARDS = {"quick": 8, "thorough": 16}
 PROFILE = gen.Profile(
-    quantifiers=False, ifuns=False, const_atoms=True, max_fluents=5, max_arity=1, bounded=False, division=False,
+    quantifiers=True, ifuns=False, const_atoms=True, max_fluents=5, max_arity=1, bounded=False, division=False,
     nested_fluent_args=False, fluent_kinds=["bool", "bool", "bool", "int", "real", "obj"], max_objects=3,
 )
 
@@ -37,6 +37,10 @@ def is_nnf(n):
     t = n.node_type
     if t in (OK.AND, OK.OR):
         return all(is_nnf(a) for a in n.args)
+    if t in (OK.EXISTS, OK.FORALL):
+        return is_nnf(n.arg(0))  # negations are pushed through quantifiers
+    if t == OK.NOT and n.arg(0).node_type in (OK.EXISTS, OK.FORALL):
+        return False
     return is_literal(n)
 
 
@@ -83,7 +87,9 @@ def oracle_factory(ctx):
             raise Violation(f"dnf-exception:{type(ex).__name__}", repr(ex), case)
         if not is_nnf(nnf):
             raise Violation("nnf-shape", f"NNF of {e} is {nnf}", case)
-        if not is_dnf(dnf):
+        has_q = _has_quantifier(case["bool"][0])
+        if not has_q and not is_dnf(dnf):
+            # C12's domain has no quantifiers; with them (treated as atoms by Dnf) only equivalence is checked
             raise Violation("dnf-shape", f"DNF of {e} is {dnf}", case)
         E = Evaluator(b.problem)
         n = 0
@@ -113,6 +119,12 @@ def oracle_factory(ctx):
             ctx.nontriv(case["bool"][0], {"expr": case["bool"][0], "dnf": str(dnf)})
 
     return oracle
+
+
+def _has_quantifier(spec):
+    if isinstance(spec, list) and spec:
+        return spec[0] in ("exists", "forall") or any(_has_quantifier(x) for x in spec[1:])
+    return False
 
 
 def fmt(state, pb, vb):
